@@ -766,9 +766,76 @@ func (c *refCluster) finish() {
 				continue
 			}
 			if n.tip().idx < c.heights {
+				if c.commitLockDeadlock() {
+					// the protocol-level commit lock of dBFT 2.0 (known finding L2): validators that
+					// have sent their Commit never leave their view, the others have moved on, and
+					// in no view can M validators still come together
+					c.violate("stall_commit_lock_across_views", n.id, fmt.Sprintf("validator %d (node %d) is at ledger height %d of %d: %s", n.vidx, n.id, n.tip().idx, c.heights, c.lockState()))
+					return
+				}
 				c.violate("no_progress_with_silent_validators", n.id, fmt.Sprintf("validator %d (node %d) is at ledger height %d of %d after %d block times of synchrony with only silent validators missing", n.vidx, n.id, n.tip().idx, c.heights, c.now/c.T))
 				return
 			}
 		}
 	}
+}
+
+// commitLockDeadlock recognises the commit lock of dBFT 2.0 at the end of a stalled run, from
+// first principles: at the stuck height, a validator that has sent its Commit stays in its view
+// for ever and an unlocked one can only move to higher views; the height is dead iff for every
+// view w the validators locked in w plus the unlocked ones that are still at or below w are
+// fewer than M.  Anything else that stalls (a quorum could still form) is not this finding.
+func (c *refCluster) commitLockDeadlock() bool {
+	var top uint32
+	for _, n := range c.nodes {
+		if n.vidx >= 0 && !n.never && n.tip().idx > top {
+			top = n.tip().idx
+		}
+	}
+	h := top + 1
+	m := c.nVal - (c.nVal-1)/3
+	locked := map[int]int{}
+	var unlocked []int
+	any := false
+	for _, n := range c.nodes {
+		if n.vidx < 0 || n.never || !n.up || n.d == nil || n.d.BlockIndex != h {
+			continue
+		}
+		if n.d.CommitSent() {
+			locked[int(n.d.ViewNumber)]++
+			any = true
+		} else {
+			unlocked = append(unlocked, int(n.d.ViewNumber))
+		}
+	}
+	if !any {
+		return false
+	}
+	views := []int{1 << 20}
+	for w := range locked {
+		views = append(views, w)
+	}
+	for _, w := range views {
+		cnt := locked[w]
+		for _, u := range unlocked {
+			if u <= w {
+				cnt++
+			}
+		}
+		if cnt >= m {
+			return false
+		}
+	}
+	return true
+}
+
+func (c *refCluster) lockState() string {
+	txt := ""
+	for _, n := range c.nodes {
+		if n.vidx < 0 || n.never || n.d == nil {
+			continue
+		}
+		txt += fmt.Sprintf(" v%d:h=%d,view=%d,commit=%v", n.vidx, n.d.BlockIndex, n.d.ViewNumber, n.d.CommitSent())
+	}
+	return "state at the end:" + txt
 }
